@@ -20,7 +20,7 @@ RULE = ("Hypothesis-generated trees (depth <=4, <=14 nodes) of batch_call_watche
         "reference batching model giving per window the watchers that must run and their events (silence while open, once "
         "per watcher at the outermost exit, final value, precedence, discard, trigger, restore). Non-trivial = a context "
         "nested in another, or a trigger/discard inside an open batch, or >=2 sets of one parameter inside one batch, or a "
-        "multi-parameter watcher receiving >=2 names; distinct = case hash. Two side scenarios ride along in a third of the cases each: update() contexts over linked parameters, and discard_events used inside a callback of a round in which an earlier (queued) watcher already queued events.")
+        "multi-parameter watcher receiving >=2 names; distinct = case hash. Two side scenarios ride along in a third of the cases each: update() contexts over linked parameters, and discard_events used inside a callback of a round in which an earlier (queued) watcher already queued events. Also: the value of num (whose bounds / doc have watchers of their own) is set, so one batch can hold events of two kinds for one parameter; the Event fired at class level through a subclass that inherits it; in the callback scenario the second watcher may issue param.trigger instead of / besides the discard block.")
 ASSUMPTIONS = [
     "'qualifying' is judged per set against the value it replaced, per watcher; extra events are tolerated for watched "
     "names that had some set inside the batch (the statement allows both readings)",
